@@ -722,9 +722,109 @@ func c18CheckSource(c *rt.C, path, src, class string) {
 			c.Event("codec_roundtrips_ok")
 		}
 	}
+	c18SharedCache(c, msgs, det)
 	if c.WantSample() {
 		c.Sample(map[string]any{"class": class, "proto": rt.Clip(src[strings.Index(src, "decimal.proto\";")+16:], 900)})
 	}
+}
+
+// c18SharedCache: what a schema cache answers for a message must not depend on what it was asked before.
+// Every message is reflected on a fresh cache and then, in declaration order and in reverse order, on one
+// shared cache; success / failure and the exported schema must agree.
+func c18SharedCache(c *rt.C, msgs []protoreflect.MessageDescriptor, det map[string]any) {
+	type outcome struct {
+		ok   bool
+		root *schema_j5pb.RootSchema
+	}
+	reflect := func(cache *j5schema.SchemaCache, md protoreflect.MessageDescriptor, where string) (outcome, bool) {
+		var root j5schema.RootSchema
+		var err error
+		var exported *schema_j5pb.RootSchema
+		ok, pv, fn, st := rt.Guard(func() {
+			root, err = cache.Schema(md)
+			if err == nil && root != nil {
+				exported = root.ToJ5Root()
+				// every reference below it must be usable
+				_ = j5schema.WalkSchemaFields(root, false, func(j5schema.WalkProperty) error { return nil })
+			}
+		})
+		if !ok {
+			c.Violate("cache-state/panic/"+fn, fmt.Sprintf("reflecting %s on %s panicked: %v", md.FullName(), where, pv), cloneDet(det, "message", string(md.FullName()), "stack", st))
+			return outcome{}, false
+		}
+		return outcome{ok: err == nil && root != nil, root: exported}, true
+	}
+	fresh := map[protoreflect.FullName]outcome{}
+	for _, md := range msgs {
+		o, ok := reflect(j5schema.NewSchemaCache(), md, "a fresh cache")
+		if !ok {
+			return
+		}
+		fresh[md.FullName()] = o
+	}
+	orders := [][]protoreflect.MessageDescriptor{msgs, nil}
+	for i := len(msgs) - 1; i >= 0; i-- {
+		orders[1] = append(orders[1], msgs[i])
+	}
+	for oi, order := range orders {
+		shared := j5schema.NewSchemaCache()
+		for _, md := range order {
+			o, ok := reflect(shared, md, "a cache that reflected other messages of the file before")
+			if !ok {
+				return
+			}
+			c.Event("shared_cache_reflections")
+			want := fresh[md.FullName()]
+			mdet := cloneDet(det, "message", string(md.FullName()), "order", []string{"declaration", "reverse"}[oi])
+			switch {
+			case o.ok && !want.ok:
+				c.Violate("cache-state/accepted-after-earlier-failure", fmt.Sprintf("%s is rejected on a fresh cache but accepted on a cache that reflected other messages before", md.FullName()), mdet)
+			case !o.ok && want.ok:
+				c.Violate("cache-state/rejected-after-earlier-use", fmt.Sprintf("%s is accepted on a fresh cache but rejected on a cache that reflected other messages before", md.FullName()), mdet)
+			case o.ok && !proto.Equal(o.root, want.root) && schemaNameCollides(md, msgs):
+				// two messages of one package whose names differ only in "." vs "_" share one schema name
+				c.Violate("cache-state/schema-name-collision", fmt.Sprintf("%s gets the schema of another message with the same flattened name once both were reflected on one cache", md.FullName()), mdet)
+			case o.ok && !proto.Equal(o.root, want.root):
+				c.Violate("cache-state/schema-differs", fmt.Sprintf("the schema of %s differs between a fresh cache and one that reflected other messages before (%s)", md.FullName(), protoPathDiff(want.root.ProtoReflect(), o.root.ProtoReflect())), mdet)
+			}
+		}
+	}
+}
+
+func schemaNameCollides(md protoreflect.MessageDescriptor, msgs []protoreflect.MessageDescriptor) bool {
+	flat := func(m protoreflect.MessageDescriptor) string {
+		pkg := string(m.ParentFile().Package())
+		return pkg + "/" + strings.ReplaceAll(strings.TrimPrefix(string(m.FullName()), pkg+"."), ".", "_")
+	}
+	for _, o := range msgs {
+		if o.FullName() != md.FullName() && flat(o) == flat(md) {
+			return true
+		}
+	}
+	return false
+}
+
+// c18CheckFiles: several files / packages; only the shared-cache oracle (the per-message oracles run in c18CheckSource)
+func c18CheckFiles(c *rt.C, files map[string]string, class string) {
+	det := map[string]any{"proto_sources": files, "class": class}
+	ct, err := compileProtoText(files)
+	if err != nil {
+		c.Event("generated_proto_rejected_by_protocompile")
+		c.Feature("c18:rejected-by-protocompile/" + errSig(err))
+		return
+	}
+	c.Eval(rt.Hash(string(bundleBytes(files))), true)
+	c.Feature("c18:" + class)
+	var own []protoreflect.FileDescriptor
+	for _, p := range rt.SortedKeys(files) {
+		if f, err := ct.Files.FindFileByPath(p); err == nil {
+			own = append(own, f)
+		}
+	}
+	msgs := allMessages(own)
+	c.Input(bundleBytes(files))
+	c18SharedCache(c, msgs, det)
+	c.EndBudget()
 }
 
 func runC18(r *rt.Runner) {
@@ -807,6 +907,10 @@ message Other { string name = 1; }
 		"enum-alias":          "enum E { option allow_alias = true; E_UNSPECIFIED = 0; E_A = 1; E_B = 1; }\nmessage A { E e = 1; repeated E es = 2; }",
 		"enum-negative":       "enum E { E_UNSPECIFIED = 0; E_NEG = -1; }\nmessage A { E e = 1; }",
 		"empty-message":       "message A { }",
+		"flatten-chain":       "message A { B b = 1 [(j5.ext.v1.field).object.flatten = true]; string own = 2; }\nmessage B { C c = 1 [(j5.ext.v1.field).object.flatten = true]; int64 count = 2; }\nmessage C { string name = 1; Leaf leaf = 2; repeated string tags = 3; }\nmessage Leaf { string text = 1; }",
+		"flatten-chain-3":     "message A { B b = 1 [(j5.ext.v1.field).message.flatten = true]; }\nmessage B { C c = 1 [(j5.ext.v1.field).message.flatten = true]; }\nmessage C { D d = 1 [(j5.ext.v1.field).message.flatten = true]; string c_name = 2; }\nmessage D { string d_name = 1; optional int32 d_count = 2; }",
+		"flatten-chain-oneof": "message A { B b = 1 [(j5.ext.v1.field).object.flatten = true]; }\nmessage B { C c = 1 [(j5.ext.v1.field).object.flatten = true]; }\nmessage C { oneof pick { option (j5.ext.v1.oneof).expose = true; string s = 1; int64 i = 2; } string name = 3; }",
+		"flatten-chain-item":  "message A { repeated B bs = 1; map<string, B> by_name = 2; }\nmessage B { C c = 1 [(j5.ext.v1.field).object.flatten = true]; }\nmessage C { D d = 1 [(j5.ext.v1.field).object.flatten = true]; string c_name = 2; }\nmessage D { string d_name = 1; }",
 		"deep-nesting":        "message A { message B { message C { message D { string s = 1; } D d = 1; } C c = 1; } B b = 1; }",
 	}
 	for _, name := range rt.SortedKeys(recShapes) {
@@ -814,6 +918,23 @@ message Other { string name = 1; }
 		r.Do("sys/shape/"+name, func(c *rt.C) {
 			src := fmt.Sprintf(arbHeader, "verif.arb.v1") + decls + "\n"
 			c18CheckSource(c, "verif/arb/v1/shape.proto", src, "systematic-shape")
+		})
+	}
+	// --- several packages: what fails in one must not leak into what is asked next -----------------------
+	bad := map[string]string{
+		"map-int-key":   "message Bad { map<int32, string> m = 1; }",
+		"fixed64":       "message Bad { fixed64 f = 1; }",
+		"self-flatten":  "message Bad { Bad next = 1 [(j5.ext.v1.field).object.flatten = true]; }",
+		"wrapper-empty": "message Bad { option (j5.ext.v1.message).oneof = {}; }",
+	}
+	for _, name := range rt.SortedKeys(bad) {
+		decl := bad[name]
+		r.Do("sys/shared-cache/"+name, func(c *rt.C) {
+			files := map[string]string{
+				"verif/dep/v1/dep.proto":   fmt.Sprintf(arbHeader, "verif.dep.v1") + decl + "\nmessage Good { string name = 1; }\nmessage Holder { Bad bad = 1; Good good = 2; }\n",
+				"verif/main/v1/main.proto": strings.Replace(fmt.Sprintf(arbHeader, "verif.main.v1"), "syntax = \"proto3\";", "syntax = \"proto3\";\nimport \"verif/dep/v1/dep.proto\";", 1) + "message X { verif.dep.v1.Bad bad = 1; }\nmessage Y { verif.dep.v1.Bad bad = 1; string s = 2; }\nmessage Z { verif.dep.v1.Good good = 1; }\nmessage W { verif.dep.v1.Holder holder = 1; repeated Z zs = 2; }\n",
+			}
+			c18CheckFiles(c, files, "shared-cache")
 		})
 	}
 	// --- random files ----------------------------------------------------------------------------------------------
